@@ -1722,3 +1722,447 @@ Proof.
   repeat (apply andb_true_iff; split); try reflexivity;
     try (apply Z.leb_le; lia); try (apply Z.ltb_lt; lia).
 Qed.
+
+(* ===================================================================== END TO END
+   The mapper-side half of the C12 domain contract, discharged from the C01 mapper model
+   (Proofs/MapperProofs.v) and the C03 statistics model (Proofs/StatsProofs.v). *)
+Require PF.Model.Mapper PF.Model.MapperSpec PF.Model.Stats PF.Proofs.MapperProofs PF.Proofs.StatsProofs.
+
+Lemma nth_error_seq' : forall n a r x, nth_error (seq a n) r = Some x -> x = a + r.
+Proof.
+  induction n as [|n IH]; intros a r x H; destruct r; simpl in H; try discriminate.
+  - inversion H; lia.
+  - apply IH in H. lia.
+Qed.
+
+Lemma stack1_spec : forall {A} n (cols : list (list A)) m,
+    stack1 n cols = Some m ->
+    length m = n /\ rect (length cols) m = true /\
+    forall r j z, get2 m r j = Some z -> exists col, nth_error cols j = Some col /\ nth_error col r = Some z.
+Proof.
+  intros A n cols m H. unfold stack1 in H. split; [|split].
+  - rewrite (mapM_len _ _ _ H). apply seq_length.
+  - apply rect_forall. intros row Hin. apply In_nth_error in Hin. destruct Hin as [r Hr].
+    destruct (mapM_nth_inv _ _ _ _ _ H Hr) as [x [_ Hx]]. apply (mapM_len _ _ _ Hx).
+  - intros r j z Hg. unfold get2 in Hg. destruct (nth_error m r) as [row|] eqn:Hr; [|discriminate].
+    destruct (mapM_nth_inv _ _ _ _ _ H Hr) as [x [Hs Hx]]. apply nth_error_seq' in Hs. simpl in Hs. subst x.
+    destruct (mapM_nth_inv _ _ _ _ _ Hx Hg) as [col [Hc Hz]]. eauto.
+Qed.
+
+Lemma forallb_combine_of_get2 : forall {A B} (P : A -> B -> bool) (d : B) ps (feat : mat A),
+    rect (length ps) feat = true ->
+    (forall r j z, get2 feat r j = Some z -> j < length ps -> P z (nth j ps d) = true) ->
+    forallb (fun row => forallb (fun p => P (fst p) (snd p)) (combine row ps)) feat = true.
+Proof.
+  intros A B P d ps feat R0 H. apply forallb_forall. intros row Hin.
+  pose proof (proj1 (rect_forall _ feat) R0 row Hin) as Hl.
+  apply In_nth_error in Hin. destruct Hin as [r Hr].
+  apply forallb_forall. intros [z b] Hp. simpl.
+  apply In_nth_error in Hp. destruct Hp as [j Hj].
+  assert (Hlt : j < length (combine row ps)) by (apply nth_error_Some; congruence).
+  rewrite combine_length in Hlt.
+  destruct (nth_error row j) as [z'|] eqn:Hz; [|apply nth_error_None in Hz; lia].
+  rewrite (nth_error_combine d row ps j z' Hz) in Hj by lia. inversion Hj; subst.
+  apply (H r j z); [unfold get2; rewrite Hr; assumption | lia].
+Qed.
+
+Lemma get2_map_rowmap : forall {A B} c (g : nat -> A -> B) (m : mat A) r j,
+    rect c m = true -> get2 (map (rowmap c g) m) r j = option_map (g j) (get2 m r j).
+Proof.
+  intros A B c g m r j R0. unfold get2. rewrite nth_error_map.
+  destruct (nth_error m r) as [row|] eqn:Hr; simpl; [|reflexivity].
+  pose proof (proj1 (rect_forall _ m) R0 row (nth_error_In _ _ Hr)) as Hl.
+  unfold rowmap. rewrite nth_error_map.
+  destruct (nth_error row j) as [x|] eqn:Hx.
+  - rewrite (nth_error_combine_seq row c j x Hl Hx). reflexivity.
+  - destruct (nth_error (combine (seq 0 c) row) j) eqn:Hc; [|reflexivity].
+    assert (Hlt : j < length (combine (seq 0 c) row)) by (apply nth_error_Some; congruence).
+    rewrite combine_length in Hlt. apply nth_error_None in Hx. lia.
+Qed.
+
+(* C03: value_counts lists every distinct value once *)
+Lemma counted_nodup : forall cats, counted_categories cats -> NoDup cats.
+Proof.
+  intros cats [code [o [col [Hinj [Hmap Hv]]]]].
+  apply StatsProofs.valid_count_order_sound in Hv. destruct Hv as [[Hnd _] _].
+  rewrite <- Hmap in Hnd. clear Hmap.
+  induction cats as [|a cats IH]; [constructor|].
+  simpl in Hnd. inversion Hnd as [|x l Hnin Hnd']; subst. constructor.
+  - intro Hin. apply Hnin. apply in_map. assumption.
+  - apply IH; [|assumption]. intros x y Hx Hy. apply Hinj; right; assumption.
+Qed.
+
+Section EndToEnd.
+  Variable S : Scalar.
+  Notation R := (car S).
+  Context {L : Type}.
+
+  (* ---------------------------------------------------------- categorical *)
+  Notation cat_col_stats := (@Encoders.cat_col_stats S L).
+
+  Lemma cat_cell_range : forall cols n feat r j z,
+      Forall (fun p => counted_categories (fst p)) cols ->
+      frame_of_columns n (cat_columns cols) = Some feat -> get2 feat r j = Some z ->
+      (-1 <= z < Z.of_nat (nth j (ncats S (cat_col_stats cols)) 0%nat))%Z.
+  Proof.
+    intros cols n feat r j z HC HF Hg.
+    destruct (stack1_spec _ _ _ HF) as [_ [_ Hcell]]. destruct (Hcell r j z Hg) as [col [Hc Hz]].
+    unfold cat_columns in Hc. rewrite nth_error_map in Hc.
+    destruct (nth_error cols j) as [[cats s]|] eqn:Hp; [|discriminate]. simpl in Hc. inversion Hc; subst col. clear Hc.
+    rewrite Forall_forall in HC. pose proof (HC _ (nth_error_In _ _ Hp)) as Hcnt. simpl in Hcnt.
+    rewrite (MapperProofs.categorical_faithful cats s (counted_nodup _ Hcnt)) in Hz.
+    rewrite map_map, nth_error_map in Hz.
+    destruct (nth_error (Mapper.ser_values s) r) as [c|]; [|discriminate]. simpl in Hz. inversion Hz; subst z. clear Hz.
+    assert (Hn : nth j (ncats S (cat_col_stats cols)) 0%nat = length cats).
+    { unfold ncats, cat_col_stats. rewrite map_map. simpl.
+      erewrite nth_indep by (rewrite map_length; apply nth_error_Some; congruence).
+      rewrite (map_nth (fun p : list Mapper.pval * @Mapper.series L (option Mapper.pval) => length (fst p)) cols (cats, s)).
+      rewrite (nth_error_nth _ _ _ Hp). reflexivity. }
+    rewrite Hn. unfold ecell_int, MapperSpec.canon_cat. simpl.
+    destruct c as [v|]; [apply MapperProofs.index_of_range | lia].
+  Qed.
+
+  Lemma idx_fill_categorical : forall s (cs : colstats S),
+      na_is_categorical_strategy s = true -> idx_fill S s cs = 0%Z.
+  Proof. intros s cs H. destruct s; simpl in H; try discriminate; reflexivity. Qed.
+
+  (* For every categorical feature matrix the C01 mapper model produces from category lists
+     that are C03 count statistics, the EmbeddingEncoder built from those statistics does not
+     raise -- without a strategy, and with MOST_FREQUENT provided every column has a category
+     (i.e. at least one non-missing value, the quantifier's premise). *)
+  Theorem categorical_end_to_end : forall cols n na feat (table : mat R),
+      Forall (fun p => counted_categories (fst p)) cols ->
+      (na <> None -> Forall (fun p => fst p <> []) cols) ->
+      strategy_ok st_categorical na = true ->
+      frame_of_columns n (cat_columns cols) = Some feat ->
+      length table = emb_table_size S (cat_col_stats cols) ->
+      obind (na_forward_idx S na (cat_col_stats cols) feat) (encode_embedding S (cat_col_stats cols) table) <> None.
+  Proof.
+    intros cols n na feat table HC Hne Hok HF Ht.
+    set (stats := cat_col_stats cols) in *.
+    assert (Hls : length stats = length cols) by (unfold stats, cat_col_stats; apply map_length).
+    assert (Hln : length (ncats S stats) = length cols) by (unfold ncats; rewrite map_length; assumption).
+    destruct (stack1_spec _ _ _ HF) as [_ [R0 _]].
+    unfold cat_columns in R0. rewrite map_length in R0.
+    assert (Hin : forall feat', rect (length cols) feat' = true ->
+                    (forall r j z, get2 feat' r j = Some z ->
+                                   (-1 <= z < Z.of_nat (nth j (ncats S stats) 0%nat))%Z) ->
+                    encode_embedding S stats table feat' <> None).
+    { intros feat' R1 Hcell. apply cat_domain_no_raise; [|assumption].
+      unfold cat_in_domain. rewrite Hln, R1. simpl.
+      apply (forallb_combine_of_get2 (fun z n0 => (-1 <=? z)%Z && (z <? Z.of_nat n0)%Z) 0%nat); [rewrite Hln; assumption|].
+      intros r j z Hg _. specialize (Hcell r j z Hg). apply andb_true_iff. split; [apply Z.leb_le | apply Z.ltb_lt]; lia. }
+    rewrite na_forward_idx_form
+      by (intros s -> cs; apply as_idx_fill_cat; apply strategy_ok_cat; assumption).
+    destruct na as [s|]; simpl.
+    - rewrite Hls, R0. simpl. apply Hin.
+      + apply rect_map; [intros; apply rowmap_length; assumption | assumption].
+      + intros r j z Hg. rewrite get2_map_rowmap in Hg by assumption.
+        destruct (get2 feat r j) as [z0|] eqn:Hz; [|discriminate]. simpl in Hg. inversion Hg; subst z. clear Hg.
+        pose proof (cat_cell_range cols n feat r j z0 HC HF Hz) as Hr. fold stats in Hr.
+        rewrite (idx_fill_categorical s _ (strategy_ok_cat s Hok)).
+        destruct (z0 =? -1)%Z eqn:E; [|assumption].
+        (* the imputed index 0 is a category: the column has one *)
+        assert (Hj : j < length cols).
+        { unfold get2 in Hz. destruct (nth_error feat r) as [row|] eqn:Hrow; [|discriminate].
+          rewrite <- (proj1 (rect_forall _ feat) R0 row (nth_error_In _ _ Hrow)). apply nth_error_Some. congruence. }
+        destruct (nth_error cols j) as [[cats sr]|] eqn:Hp; [|apply nth_error_None in Hp; lia].
+        assert (Hn : nth j (ncats S stats) 0%nat = length cats).
+        { unfold ncats, stats, cat_col_stats. rewrite map_map. simpl.
+          erewrite nth_indep by (rewrite map_length; assumption).
+          rewrite (map_nth (fun p : list Mapper.pval * @Mapper.series L (option Mapper.pval) => length (fst p)) cols (cats, sr)).
+          rewrite (nth_error_nth _ _ _ Hp). reflexivity. }
+        rewrite Hn.
+        assert (Hc : cats <> []).
+        { specialize (Hne ltac:(discriminate)). rewrite Forall_forall in Hne.
+          apply (Hne _ (nth_error_In _ _ Hp)). }
+        destruct cats; [contradiction|]. simpl. lia.
+    - apply Hin; [assumption|]. intros r j z Hg. apply (cat_cell_range cols n feat r j z HC HF Hg).
+  Qed.
+End EndToEnd.
+
+Lemma Forall2_nth_error_l : forall {A B} (P : A -> B -> Prop) l l' i a,
+    Forall2 P l l' -> nth_error l i = Some a -> exists b, nth_error l' i = Some b /\ P a b.
+Proof.
+  intros A B P l l' i a H. revert i. induction H as [|x y l l' Hxy H IH]; intros i Hi; destruct i; simpl in *; try discriminate.
+  - inversion Hi; subst. eauto.
+  - apply IH. assumption.
+Qed.
+
+Lemma Forall2_nth_error_r : forall {A B} (P : A -> B -> Prop) l l' i b,
+    Forall2 P l l' -> nth_error l' i = Some b -> exists a, nth_error l i = Some a /\ P a b.
+Proof.
+  intros A B P l l' i b H. revert i. induction H as [|x y l l' Hxy H IH]; intros i Hi; destruct i; simpl in *; try discriminate.
+  - inversion Hi; subst. eauto.
+  - apply IH. assumption.
+Qed.
+
+Lemma in_ecell_ints : forall e z, In z (ecell_ints e) -> In (Mapper.SInt z) e.
+Proof.
+  intros e z H. unfold ecell_ints in H. apply in_flat_map in H. destruct H as [s [Hs Hz]].
+  destruct s; simpl in Hz; [|contradiction]. destruct Hz as [<- | []]. assumption.
+Qed.
+
+Section EndToEndBags.
+  Variable S : Scalar.
+  Notation R := (car S).
+  Context {L : Type}.
+  Notation mcol := (list Mapper.pval * option Mapper.str * @Mapper.series L Mapper.mc_cell)%type.
+
+  Notation mc_stats := (@Encoders.mc_stats S L).
+
+  (* every index the mapper emits in a multicategorical cell is -1 or a listed category *)
+  Lemma bag_cell_range : forall (p : mcol) enc r e z,
+      mc_ok p ->
+      Mapper.multicategorical_encode true (fst (fst p)) (snd (fst p)) (snd p) = Some enc ->
+      nth_error enc r = Some e -> In z (ecell_ints e) ->
+      (-1 <= z < Z.of_nat (length (fst (fst p))))%Z.
+  Proof.
+    intros [[cats sep] s] enc r e z [Hcnt [Hm1 Htok]] He Hr Hz. simpl in *.
+    destruct (mapM (MapperSpec.canon_multi cats sep) (Mapper.ser_values s)) as [canon|] eqn:Hc.
+    2:{ rewrite (MapperProofs.multicategorical_raises true cats sep s Hc) in He. discriminate. }
+    destruct (MapperProofs.multicategorical_faithful cats sep s canon (counted_nodup _ Hcnt) Hm1 Htok Hc)
+      as [enc' [He' HP]].
+    rewrite He in He'. inversion He'; subst enc'. clear He'.
+    destruct (Forall2_nth_error_l _ _ _ _ _ HP Hr) as [c' [Hc' Hperm]].
+    destruct (mapM_nth_inv _ _ _ _ _ Hc Hc') as [cell [_ Hcm]].
+    apply in_ecell_ints in Hz. apply (Permutation.Permutation_in _ Hperm) in Hz.
+    unfold MapperSpec.canon_multi in Hcm.
+    destruct cell.
+    - inversion Hcm; subst c'. destruct Hz as [Hz | []]. inversion Hz. lia.
+    - destruct (MapperSpec.tokens_of sep (Mapper.MCStr s0)) as [toks|]; simpl in Hcm; [|discriminate].
+      inversion Hcm; subst c'. apply in_map_iff in Hz. destruct Hz as [k [Hk Hin]]. inversion Hk; subst z.
+      unfold MapperSpec.canon_idx in Hin. apply filter_In in Hin. destruct Hin as [Hin _]. apply in_seq in Hin. lia.
+    - destruct (MapperSpec.tokens_of sep (Mapper.MCList l)) as [toks|]; simpl in Hcm; [|discriminate].
+      inversion Hcm; subst c'. apply in_map_iff in Hz. destruct Hz as [k [Hk Hin]]. inversion Hk; subst z.
+      unfold MapperSpec.canon_idx in Hin. apply filter_In in Hin. destruct Hin as [Hin _]. apply in_seq in Hin. lia.
+    - destruct (MapperSpec.tokens_of sep Mapper.MCOther) as [toks|]; simpl in Hcm; [|discriminate].
+      inversion Hcm; subst c'. apply in_map_iff in Hz. destruct Hz as [k [Hk Hin]]. inversion Hk; subst z.
+      unfold MapperSpec.canon_idx in Hin. apply filter_In in Hin. destruct Hin as [Hin _]. apply in_seq in Hin. lia.
+  Qed.
+
+  (* bags never raise when every shifted index addresses a row of its column's table *)
+  Lemma bags_no_raise_gen : forall mode ch (tables : list (mat R)) (feat : mat (list Z)),
+      rect (length tables) feat = true ->
+      (forall r j cell z, get2 feat r j = Some cell -> In z cell ->
+                          (0 <= z + 1 < Z.of_nat (length (nth j tables [])))%Z) ->
+      encode_bags S mode ch tables feat <> None.
+  Proof.
+    intros mode ch tables feat R0 H.
+    rewrite (encode_bags_form S (map (fun _ => dstats S) tables)) by (rewrite map_length; reflexivity).
+    rewrite map_length. apply cw_some; [assumption|].
+    intros r j cell Hg. unfold embedding_bag.
+    destruct (mapM (embedding_lookup S (nth j tables []))
+                   (filter (fun i => negb (i =? 0)%Z) (map (fun z => (z + 1)%Z) cell))) as [rows|] eqn:E.
+    - simpl. destruct rows; [discriminate|]. destruct mode; discriminate.
+    - exfalso. revert E. apply mapM_some_all. intros i Hi.
+      apply filter_In in Hi. destruct Hi as [Hi _]. apply in_map_iff in Hi. destruct Hi as [z [<- Hz]].
+      specialize (H r j cell z Hg Hz). unfold embedding_lookup.
+      destruct (z + 1 <? 0)%Z eqn:E0; [apply Z.ltb_lt in E0; lia|].
+      destruct (nth_error (nth j tables []) (Z.to_nat (z + 1))) eqn:En; [discriminate|].
+      apply nth_error_None in En. lia.
+  Qed.
+
+  Lemma idx_fill_multicategorical : forall s (cs : colstats S),
+      na_is_multicategorical_strategy s = true -> idx_fill S s cs = 0%Z.
+  Proof. intros s cs H. destruct s; simpl in H; try discriminate; reflexivity. Qed.
+
+  (* For every multicategorical feature matrix the C01 mapper model produces (from category
+     lists that are C03 count statistics), MultiCategoricalEmbeddingEncoder with the tables
+     init_modules allocates does not raise -- without a strategy and with ZEROS, whatever the
+     number of categories. *)
+  Theorem multicategorical_end_to_end : forall (cols : list mcol) encs n na feat mode ch (tables : list (mat R)),
+      Forall2 (fun p enc => Mapper.multicategorical_encode true (fst (fst p)) (snd (fst p)) (snd p) = Some enc) cols encs ->
+      Forall mc_ok cols ->
+      strategy_ok st_multicategorical na = true ->
+      frame_of_columns n (map (map ecell_ints) encs) = Some feat ->
+      length tables = length cols ->
+      (forall j, j < length cols -> bag_table_rows (nth j (ncats S (mc_stats cols)) 0) <= length (nth j tables [])) ->
+      obind (na_forward_bag S na (mc_stats cols) feat) (encode_bags S mode ch tables) <> None.
+  Proof.
+    intros cols encs n na feat mode ch tables HE HC Hok HF Ht Hrows.
+    set (stats := mc_stats cols) in *.
+    assert (Hls : length stats = length cols) by (unfold stats, mc_stats; apply map_length).
+    assert (Hle : length encs = length cols).
+    { clear - HE. induction HE; simpl; [reflexivity | congruence]. }
+    destruct (stack1_spec _ _ _ HF) as [_ [R0 Hcell]]. rewrite map_length, Hle in R0.
+    (* range of every emitted index *)
+    assert (Hrange : forall r j cell z, get2 feat r j = Some cell -> In z cell ->
+                       j < length cols /\ (-1 <= z < Z.of_nat (nth j (ncats S stats) 0%nat))%Z).
+    { intros r j cell z Hg Hz. destruct (Hcell r j cell Hg) as [col [Hc Hr]].
+      rewrite nth_error_map in Hc. destruct (nth_error encs j) as [enc|] eqn:Henc; [|discriminate].
+      simpl in Hc. inversion Hc; subst col. clear Hc.
+      rewrite nth_error_map in Hr. destruct (nth_error enc r) as [e|] eqn:Her; [|discriminate].
+      simpl in Hr. inversion Hr; subst cell. clear Hr.
+      destruct (Forall2_nth_error_r _ _ _ _ _ HE Henc) as [p [Hp Hpe]].
+      assert (Hj : j < length cols) by (apply nth_error_Some; congruence).
+      split; [assumption|].
+      rewrite Forall_forall in HC. pose proof (HC p (nth_error_In _ _ Hp)) as Hmc.
+      assert (Hn : nth j (ncats S stats) 0%nat = length (fst (fst p))).
+      { unfold ncats, stats, mc_stats. rewrite map_map. simpl.
+        erewrite nth_indep by (rewrite map_length; assumption).
+        rewrite (map_nth (fun q : mcol => length (fst (fst q))) cols p).
+        rewrite (nth_error_nth _ _ _ Hp). reflexivity. }
+      rewrite Hn. eapply bag_cell_range; eauto. }
+    assert (Hfin : forall feat', rect (length cols) feat' = true ->
+              (forall r j cell z, get2 feat' r j = Some cell -> In z cell ->
+                 j < length cols /\ ((-1 <= z < Z.of_nat (nth j (ncats S stats) 0%nat))%Z \/ z = 0%Z)) ->
+              encode_bags S mode ch tables feat' <> None).
+    { intros feat' R1 H. apply bags_no_raise_gen; [rewrite Ht; assumption|].
+      intros r j cell z Hg Hz. destruct (H r j cell z Hg Hz) as [Hj Hr].
+      pose proof (bag_fill_in_table _ z Hr). specialize (Hrows j Hj). lia. }
+    rewrite na_forward_bag_form
+      by (intros s -> cs; apply as_idx_fill_multicat; apply strategy_ok_multicat; assumption).
+    destruct na as [s|]; simpl.
+    - rewrite Hls, R0. simpl. apply Hfin.
+      + apply rect_map; [intros; apply rowmap_length; assumption | assumption].
+      + intros r j cell z Hg Hz. rewrite get2_map_rowmap in Hg by assumption.
+        destruct (get2 feat r j) as [c0|] eqn:Hc0; [|discriminate]. simpl in Hg. inversion Hg; subst cell. clear Hg.
+        apply in_map_iff in Hz. destruct Hz as [z0 [Hz0 Hin]].
+        destruct (Hrange r j c0 z0 Hc0 Hin) as [Hj Hr]. split; [assumption|].
+        rewrite (idx_fill_multicategorical s _ (strategy_ok_multicat s Hok)) in Hz0.
+        destruct (z0 =? -1)%Z; [right; congruence | left; congruence].
+    - apply Hfin; [assumption|]. intros r j cell z Hg Hz.
+      destruct (Hrange r j cell z Hg Hz) as [Hj Hr]. auto.
+  Qed.
+End EndToEndBags.
+
+Section EndToEndTime.
+  Variable S : Scalar.
+  Notation R := (car S).
+  Context {L : Type}.
+  Notation tcol := (@Mapper.series L (option Z)).
+
+  Lemma time_cell_some : forall (cs : colstats S) ch half pm wj bj cell,
+      time_cell_in_domain (cs_year_min cs) cell = true ->
+      time_cell S cs ch half pm wj bj cyclic_norm_constants cell <> None.
+  Proof.
+    intros cs ch half pm wj bj cell H. unfold time_cell_in_domain in H. destruct cell as [|y rest]; [discriminate|].
+    apply andb_true_iff in H. destruct H as [H H3]. apply andb_true_iff in H. destruct H as [H1 H2].
+    unfold time_cell.
+    assert (Hy : (0 <=? y - cs_year_min cs)%Z = true) by (apply Z.leb_le in H1; apply Z.leb_le; lia).
+    rewrite Hy, H2, H3. discriminate.
+  Qed.
+
+  Lemma in_present_time_cells : forall vals c,
+      In c (Stats.present (time_stat_cells vals)) -> exists s, In (Some s) vals /\ c = (s, calendar_cell s).
+  Proof.
+    induction vals as [|v vals IH]; intros c H; simpl in H; [contradiction|].
+    unfold Stats.present in *. simpl in H. apply in_app_or in H. destruct H as [H | H].
+    - destruct v as [s|]; simpl in H; [|contradiction]. destruct H as [<- | []]. exists s. split; [left; reflexivity | reflexivity].
+    - destruct (IH c H) as [s [Hs Hc]]. exists s. split; [right; assumption | assumption].
+  Qed.
+
+  Lemma present_time_cells_in : forall vals s,
+      In (Some s) vals -> In (s, calendar_cell s) (Stats.present (time_stat_cells vals)).
+  Proof.
+    induction vals as [|v vals IH]; intros s H; simpl in H; [contradiction|].
+    unfold Stats.present in *. simpl. apply in_or_app. destruct H as [-> | H].
+    - left. simpl. left. reflexivity.
+    - right. apply IH. assumption.
+  Qed.
+
+  Lemma last_error_In : forall {A} (l : list A) x, last_error l = Some x -> In x l.
+  Proof.
+    intros A l x H. destruct l as [|a l]; simpl in H; [discriminate|]. inversion H; subst. clear H.
+    destruct l as [|b l]; [left; reflexivity|]. right.
+    rewrite (app_removelast_last a (l := b :: l)) at 2 by discriminate. apply in_or_app. right. left. reflexivity.
+  Qed.
+
+  (* the fitted statistics of a column: minimal year below every instant of the column, and the
+     three candidate fill values are cells of the column *)
+  Lemma fitted_time_stats : forall vals t,
+      Stats.present (time_stat_cells vals) <> [] -> Stats.compute_time (time_stat_cells vals) = Some t ->
+      (forall s, In (Some s) vals -> (hd 0%Z (Stats.t_year_range t) <= year_of_days (days_of_secs s))%Z) /\
+      (forall f, f = Stats.t_oldest t \/ f = Stats.t_newest t \/ f = Stats.t_median t ->
+                 exists s, In (Some s) vals /\ f = calendar_cell s).
+  Proof.
+    intros vals t Hne Hc.
+    destruct (StatsProofs.compute_time_spec _ _ Hne Hc)
+      as [ser [Hperm [_ [[c0 [H0 [Ho _]]] [[c1 [H1 [Hn _]]] [[cm [Hm Hmd]] [lo [hi [Hyr [Hall _]]]]]]]]]].
+    split.
+    - intros s Hs. rewrite Hyr. simpl.
+      destruct (Hall (s, calendar_cell s) (year_of_days (days_of_secs s)) (present_time_cells_in vals s Hs) eq_refl). assumption.
+    - assert (Hin : forall c, In c ser -> exists s, In (Some s) vals /\ snd c = calendar_cell s).
+      { intros c Hc'. apply (Permutation.Permutation_in _ Hperm) in Hc'.
+        destruct (in_present_time_cells vals c Hc') as [s [Hs ->]]. eauto. }
+      intros f [-> | [-> | ->]].
+      + rewrite Ho. apply Hin. destruct ser; simpl in H0; [discriminate|]. inversion H0; subst. left; reflexivity.
+      + rewrite Hn. apply Hin. apply last_error_In. assumption.
+      + rewrite Hmd. apply Hin. eapply nth_error_In; eauto.
+  Qed.
+
+  Lemma time_fill_is_stat : forall s t,
+      na_is_timestamp_strategy s = true ->
+      time_fill S s (time_colstats S t) = Stats.t_oldest t \/ time_fill S s (time_colstats S t) = Stats.t_newest t \/
+      time_fill S s (time_colstats S t) = Stats.t_median t.
+  Proof. intros s t H. destruct s; simpl in H; try discriminate; simpl; auto. Qed.
+
+  (* For every timestamp feature matrix the C01 mapper model produces, with the statistics the
+     C03 model computes from the same columns (each with at least one parsed instant),
+     TimestampEncoder does not raise -- with any timestamp strategy (the imputed OLDEST / NEWEST /
+     MEDIAN cell is itself a cell of the column), and without a strategy when no cell is missing. *)
+  Theorem timestamp_end_to_end : forall (cols : list tcol) ts n na feat ch half pm w b,
+      Forall2 (fun s t => Stats.present (time_stat_cells (Mapper.ser_values s)) <> [] /\
+                          Stats.compute_time (time_stat_cells (Mapper.ser_values s)) = Some t) cols ts ->
+      strategy_ok st_timestamp na = true ->
+      (na = None -> Forall (fun s => Forall (fun c => c <> None) (Mapper.ser_values s)) cols) ->
+      frame_of_columns n (map (fun s => map ecell_ints (Mapper.timestamp_encode s)) cols) = Some feat ->
+      length w = length cols -> length b = length cols ->
+      obind (na_forward_time S na (map (time_colstats S) ts) feat)
+            (encode_timestamp S (map (time_colstats S) ts) ch half pm w b cyclic_norm_constants) <> None.
+  Proof.
+    intros cols ts n na feat ch half pm w b HT Hok Hnone HF Hw Hb.
+    set (stats := map (time_colstats S) ts) in *.
+    assert (Hlt : length ts = length cols) by (clear - HT; induction HT; simpl; [reflexivity | congruence]).
+    assert (Hls : length stats = length cols) by (unfold stats; rewrite map_length; assumption).
+    destruct (stack1_spec _ _ _ HF) as [_ [R0 Hcell]]. rewrite map_length in R0.
+    (* what a cell of the matrix is *)
+    assert (Hsrc : forall r j cell, get2 feat r j = Some cell ->
+              exists s t, nth_error cols j = Some s /\ nth_error ts j = Some t /\
+                          Stats.present (time_stat_cells (Mapper.ser_values s)) <> [] /\
+                          Stats.compute_time (time_stat_cells (Mapper.ser_values s)) = Some t /\
+                          exists c, In c (Mapper.ser_values s) /\ cell = ecell_ints (MapperSpec.canon_time c)).
+    { intros r j cell Hg. destruct (Hcell r j cell Hg) as [col [Hc Hr]].
+      rewrite nth_error_map in Hc. destruct (nth_error cols j) as [s|] eqn:Hs; [|discriminate].
+      simpl in Hc. inversion Hc; subst col. clear Hc.
+      destruct (Forall2_nth_error_l _ _ _ _ _ HT Hs) as [t [Ht [Hp Hct]]].
+      exists s, t. repeat split; auto.
+      rewrite MapperProofs.timestamp_faithful, map_map, nth_error_map in Hr.
+      destruct (nth_error (Mapper.ser_values s) r) as [c|] eqn:Hcr; [|discriminate].
+      simpl in Hr. inversion Hr. exists c. split; [eapply nth_error_In; eauto | reflexivity]. }
+    assert (Hstat : forall j t, nth_error ts j = Some t -> nth j stats (dstats S) = time_colstats S t).
+    { intros j t Ht. unfold stats. apply nth_error_nth. rewrite nth_error_map, Ht. reflexivity. }
+    (* every cell, after na_forward, is in the encoder's domain *)
+    assert (Hdom : forall r j cell, get2 feat r j = Some cell ->
+              time_cell_in_domain (cs_year_min (nth j stats (dstats S)))
+                                  (match na_cell S na (nth j stats (dstats S)) (CTime S cell) with
+                                   | CTime _ l => l | _ => [] end) = true).
+    { intros r j cell Hg. destruct (Hsrc r j cell Hg) as [s [t [Hs [Ht [Hp [Hct [c [Hc ->]]]]]]]].
+      rewrite (Hstat j t Ht).
+      destruct (fitted_time_stats _ t Hp Hct) as [Hyear Hfill].
+      assert (Hreal : forall x, In (Some x) (Mapper.ser_values s) ->
+                time_cell_in_domain (cs_year_min (time_colstats S t)) (calendar_cell x) = true).
+      { intros x Hx. apply calendar_cell_in_domain. simpl. apply Hyear. assumption. }
+      assert (Hfilled : forall st, na_is_timestamp_strategy st = true ->
+                time_cell_in_domain (cs_year_min (time_colstats S t)) (time_fill S st (time_colstats S t)) = true).
+      { intros st Hst. destruct (Hfill _ (time_fill_is_stat st t Hst)) as [x [Hx ->]]. apply Hreal. assumption. }
+      destruct na as [st|]; simpl.
+      - pose proof (Hfilled st (strategy_ok_time st Hok)) as Hf.
+        destruct (existsb _ _) eqn:Ex; [assumption|].
+        destruct c as [x|]; [apply Hreal; assumption|].
+        (* a missing cell holds -1, so the test above fires *)
+        simpl in Ex. discriminate.
+      - destruct c as [x|]; [apply Hreal; assumption|].
+        exfalso. specialize (Hnone eq_refl). rewrite Forall_forall in Hnone.
+        pose proof (Hnone s (nth_error_In _ _ Hs)) as Hn. rewrite Forall_forall in Hn. apply (Hn None Hc). reflexivity. }
+    rewrite na_forward_time_form by assumption.
+    rewrite (na_pipeline (length stats) _ (encode_timestamp S stats ch half pm w b cyclic_norm_constants) na
+               (fun s j cell => if existsb (fun z => (z =? -1)%Z) cell
+                                then time_fill S s (nth j stats (dstats S)) else cell))
+      by (intros; apply encode_timestamp_form; congruence).
+    rewrite Hls. apply cw_some; [assumption|].
+    intros r j cell Hg. specialize (Hdom r j cell Hg).
+    destruct na as [st|]; simpl in *; apply time_cell_some; assumption.
+  Qed.
+End EndToEndTime.
